@@ -32,6 +32,7 @@ func (s SuperSSTableReader) Contains(key []byte) (bool, error) {
 }
 
 func (s SuperSSTableReader) Get(key []byte) ([]byte, error) {
+	verifSuperGet()
 	// scanning from back to front to get the latest definitive answer
 	for i := len(s.readers) - 1; i >= 0; i-- {
 		res, err := s.readers[i].Get(key)
